@@ -146,7 +146,7 @@ var checkSpecs = map[string]*checkSpec{
 		}, kcpStateAssumptions...),
 		stubs: commonStubs,
 		bounds: map[string]string{
-			"quick":    "Input of one arbitrary segment with symbolic fields, payload 0..1: PUSH/WASK against one queued + one buffered segment, WINS against two in-flight segments, ACK (exact ack, fast-ack counting, RTT sample, una, triggered flush) against one in-flight segment, both packet types; flush FULL/ACKONLY from 2 shapes (cc off) and FULL from 2 shapes with cc on (MSS 4); Check+Update from 2 shapes; Recv+Send from 3 shapes: return values equal (Check: shifted), post-states and every emitted datagram (decoded independently) related by the same shifts",
+			"quick":    "Input of one arbitrary segment with symbolic fields, payload 0..1: PUSH/WASK against one queued + one buffered segment, WINS against two in-flight segments, ACK (exact ack, fast-ack counting, RTT sample, una, triggered flush) against one in-flight segment, both packet types; parse_ack / parse_fastack / parse_una+shrink_buf called directly on two in-flight segments (window tests and early loop exits are unobservable with one); flush FULL/ACKONLY from 2 shapes (cc off) and FULL from 2 shapes with cc on (MSS 4); Check+Update from 2 shapes; Recv+Send from 3 shapes: return values equal (Check: shifted), post-states and every emitted datagram (decoded independently) related by the same shifts",
 			"thorough": "each family extended by its two-element variants, trailing garbage, ackNoDelay",
 		},
 		outside: "states in which a never-transmitted segment is named by an ACK (forged); shapes beyond 2 per queue",
